@@ -524,7 +524,110 @@ func runAlias(raw json.RawMessage) (*Result, error) {
 	}
 	coq := fmt.Sprintf("(MkA %s %s %s %s)", coqList(pathTs), coqList(dargs), mut, coqList(instTs))
 	nt := len(in.Insts) >= 2 && anyDiff && in.Insts[0].Tree.Count() >= 3
-	return &Result{Coq: coq, Observed: obsJ, Tags: joinTags(st.tags), Nontrivial: nt, Invariant: aliasPolicyProbe(&in)}, nil
+	inv := aliasPolicyProbe(&in)
+	if inv == "" {
+		inv = aliasRepointProbe()
+	}
+	if inv == "" {
+		inv = aliasTransferProbe()
+	}
+	return &Result{Coq: coq, Observed: obsJ, Tags: joinTags(st.tags), Nontrivial: nt, Invariant: inv}, nil
+}
+
+// aliasTransferProbe: Transfer of a source holding a nested Stack into
+// destinations with every small capacity, with and without the no-nesting
+// option: the verdict and the destination afterwards are the same whether the
+// nested Stack is native, an alias value or a pointer to an alias.
+func aliasTransferProbe() (problem string) {
+	defer func() {
+		if r := recover(); r != nil {
+			problem = fmt.Sprintf("transfer probe panicked: %v", r)
+		}
+	}()
+	forms := []func(stk.Stack) any{
+		func(s stk.Stack) any { return s },
+		func(s stk.Stack) any { return aStack(s) },
+		func(s stk.Stack) any { a := aStack(s); return &a },
+		func(s stk.Stack) any { a := sStack(s); return &a },
+	}
+	for _, nn := range []bool{false, true} {
+		for cp := 0; cp <= 6; cp++ {
+			var first string
+			for fi, form := range forms {
+				src := stk.And().Push("a", form(stk.Or().Push("n1", "n2")), "b", form(stk.Or().Push("m")))
+				var dst stk.Stack
+				if cp > 0 {
+					dst = stk.And(cp)
+				} else {
+					dst = stk.And()
+				}
+				dst.Push("x")
+				if nn {
+					dst.SetNoNesting(true)
+				}
+				ok := src.Transfer(dst)
+				got := fmt.Sprintf("%v len=%d %q", ok, dst.Len(), dst.String())
+				if fi == 0 {
+					first = got
+				} else if got != first {
+					return fmt.Sprintf("Transfer into capacity %d (no-nesting %v): native nested stacks give %s, form %d gives %s", cp, nn, first, fi, got)
+				}
+			}
+		}
+	}
+	return ""
+}
+
+// aliasRepointProbe: a Condition whose expression is a POINTER to a Stack (or
+// alias) shows whatever the pointer leads to NOW: after the owner re-points,
+// refills or frees the pointee, Traverse through the Condition must agree with
+// the stepwise descent Index -> Expression -> ConvertStack -> Index, and so
+// must Len and IsNesting.
+func aliasRepointProbe() (problem string) {
+	defer func() {
+		if r := recover(); r != nil {
+			problem = fmt.Sprintf("re-point probe panicked: %v", r)
+		}
+	}()
+	check := func(what string, parent stk.Stack, c stk.Condition, idx int) string {
+		var want any
+		wantOK := false
+		if s, ok := stk.ConvertStack(c.Expression()); ok {
+			want, wantOK = s.Index(idx)
+		}
+		got, gotOK := parent.Traverse(0, idx)
+		if gotOK != wantOK || fmt.Sprint(got) != fmt.Sprint(want) {
+			return fmt.Sprintf("%s: Traverse(0,%d) = (%v,%v), stepwise descent = (%v,%v)", what, idx, got, gotOK, want, wantOK)
+		}
+		wantLen := 1
+		if s, ok := stk.ConvertStack(c.Expression()); ok {
+			wantLen = s.Len()
+		}
+		if c.Len() != wantLen {
+			return fmt.Sprintf("%s: Condition.Len() = %d, the stack it leads to holds %d", what, c.Len(), wantLen)
+		}
+		return ""
+	}
+	// pointer to alias, re-pointed
+	held := aStack(stk.And().Push("x", "y"))
+	c := stk.Cond("k", stk.Eq, &held)
+	parent := stk.And().Push(c, "z")
+	if p := check("before", parent, c, 1); p != "" {
+		return p
+	}
+	held = aStack(stk.Or().Push("p", "q", "r"))
+	if p := check("pointee replaced", parent, c, 2); p != "" {
+		return p
+	}
+	// pointer to native Stack, filled late
+	var late stk.Stack
+	c2 := stk.Cond("k2", stk.Ne, &late)
+	parent2 := stk.And().Push(c2)
+	late = stk.And().Push("only")
+	if p := check("pointee filled in later", parent2, c2, 0); p != "" {
+		return p
+	}
+	return ""
 }
 
 // nativeOf: the native Stack handle behind a nested Stack however it is typed
